@@ -19,7 +19,7 @@ NEEDS = ["harness", "cli"]
 RULE = ("(A) random call sets with missing/multiallelic genotypes x maps, with and without projection: mass(stdout) + X == R and Y == R for the "
         "summary 'Skipped X/Y', the multiset of 'Skipping site c:p' lines (-v) == the reference's skipped records (each exactly once), no summary "
         "when nothing is skipped; --strict (combined with -q / -qq / -v / -vv / none) fails at the FIRST would-be-skipped record naming it and otherwise prints identical output; L1: every "
-        "counted record's contribution sums to 1 (1e-9), incl. cohorts of 86-220 samples and of 500-1200 samples projected to about half (the band where the binomial coefficients leave the f64 range one after the other). One run per shard projects to thousands of cells with -t 2..8. (B) for streams of R records (R<=12 quick, <=40 thorough) a failing record at EVERY position "
+        "counted record's contribution sums to 1 (1e-9), incl. cohorts of 86-220 samples and of 500-1200 samples projected to about half (the band where the binomial coefficients leave the f64 range one after the other). Two call sets per shard also as ordinary gzip in one and in two members (refused, or read completely). One run per shard projects to thousands of cells with -t 2..8. (B) for streams of R records (R<=12 quick, <=40 thorough) a failing record at EVERY position "
         "0..R-1 x kind {ploidy error in a selected sample (4 containers), malformed VCF line (vcf, vcf.gz), BCF stream truncated inside record i "
         "(raw bcf, bgzf bcf), BGZF block i with a corrupted CRC (vcf.gz, bcf)}: exit != 0, empty stdout, diagnostic on stderr (naming contig:pos for "
         "ploidy errors). Non-trivial: a run with >=1 skipped and >=1 counted record, or any fault case; distinct = digest(input, argv).")
@@ -93,6 +93,23 @@ def check_A(S, p):
             S.viol("C10:skip-log-order", "[%s] skip log is not in input order" % tag, wit)
         if (summary is None) != (not want):
             S.viol("C10:summary", "[%s] summary line %r but %d records skipped" % (tag, summary, len(want)), wit)
+        if i in (2, 3) and len(cs.records) >= 2:
+            # the same text as ordinary (non-BGZF) gzip, in one member and in two (`cat a.vcf.gz b.vcf.gz`): the tool may refuse such input,
+            # but if it reads it, every record of every member is counted or reported
+            import gzip as _gz
+            text = cs.to_vcf()
+            lines_ = text.split(b"\n")
+            nh_ = len([l_ for l_ in lines_ if l_.startswith(b"#")])
+            cutl = nh_ + rng.randint(1, len(cs.records) - 1)
+            part1 = b"\n".join(lines_[:cutl]) + b"\n"
+            part2 = b"\n".join(lines_[cutl:])
+            for gname, gdata in (("one gzip member", _gz.compress(text, mtime=0)), ("two gzip members", _gz.compress(part1, mtime=0) + _gz.compress(part2, mtime=0))):
+                g = E.cli_create(gdata, smap, project=project, extra=extra, via="stdin" if i == 2 else "path")
+                S.count("A_plain_gzip_runs")
+                refused = g.rc != 0 and not g.out and g.err.strip() and not g.panicked
+                if not refused and (g.rc != r.rc or g.out != r.out):
+                    S.viol("C10:plain-gzip", "[%s as %s] neither refused nor read completely: rc %s stdout %r stderr %r; the plain text gives %r" % (
+                        tag, gname, g.rc, g.out[:120], g.err[-200:], r.out[:120]), dict(wit, gzip_input_b64=E.b64(gdata[:100000])))
         S.case(key=digest([E.codes(cs), E.map_json(smap), project]), nontrivial=bool(exp.skipped) and exp.counted > 0)
         if i == 0 and p["i"] == 0:
             S.sample({"level": "C", "argv": r.argv, "stdout": r.out.decode()[:200], "stderr": r.err.decode()[:600], "reference_skipped": want[:10], "records": R})
